@@ -131,6 +131,19 @@ func C05(e *simkern.Env) {
 			op.Script.Err = hx.GenErr(tp, op.Script.Nonce)
 		}
 	}
+	// two more failing calls for a second server of the same process that runs
+	// with the opposite debug setting (an admin and a public endpoint side by
+	// side): what one server puts into an envelope must not depend on what the
+	// other one built before
+	var ops2 []*pipew.Op
+	for i := 0; i < 2; i++ {
+		n := int64(5800 + i)
+		sc := &hx.Script{Nonce: n, Outcome: "error", Err: hx.GenErr(tp, n)}
+		if tp.Bool(1, 3) {
+			sc = &hx.Script{Nonce: n, Outcome: "panic", Panic: "string"}
+		}
+		ops2 = append(ops2, &pipew.Op{Kind: "unary", Method: "u_int", Script: sc, CancelAt: -1, ReqID: fmt.Sprintf("o%d", i)})
+	}
 	kn := pipew.DrawKnobs(tp)
 	e.Knob("debug_errors", debug)
 	e.Res.Sample = pipew.Describe(ops)
@@ -160,12 +173,31 @@ func C05(e *simkern.Env) {
 			}
 			_ = i
 		}
+		judgeOther := func(tr string, op *pipew.Op, eb *hx.Batch) {
+			if w, expect := wantFor(op); expect && eb != nil {
+				judged++
+				sim.Probe(tr + "-exception-other-debug-setting")
+				c05Judge(e, tr+":other-debug-setting/"+op.Sig(), eb, w, !debug)
+			}
+		}
+		if !e.Violated() && reason == simkern.StopDone {
+			sess2 := &pipew.Session{Srv: pipew.NewServer(func(s *vgirpc.Server) { s.SetDebugErrors(!debug) }), Ops: ops2}
+			if r := pipew.RunSession(sim, sess2, kn, 20000); r != simkern.StopDone {
+				reason = r
+			}
+			for _, r := range sess2.Results {
+				if e.Violated() || r.ClientErr != nil {
+					break
+				}
+				judgeOther("pipe", r.Op, lastErr(r.AllBatch))
+			}
+		}
 		// ---- HTTP ----
 		if !e.Violated() && reason == simkern.StopDone {
 			hx.Rec.Reset()
 			store := &simStore{sim: sim, objects: map[string][]byte{}, perTask: map[string]int64{}}
 			setup := func(i int, srv *vgirpc.Server, h *vgirpc.HttpServer) {
-				srv.SetDebugErrors(debug)
+				srv.SetDebugErrors(debug != (i == 4))
 				switch i {
 				case 1: // wire cap refusals
 					h.SetMaxResponseBytes(64)
@@ -179,7 +211,7 @@ func C05(e *simkern.Env) {
 					h.EnableSticky(time.Hour)
 				}
 			}
-			cl := httpw.NewCluster(httpw.Config{Key: []byte("0123456789abcdef0123456789abcdef"), CacheSizes: []int{-1, -1, -1, -1}, NoTwin: true, Setup: setup, BatchLimit: 2})
+			cl := httpw.NewCluster(httpw.Config{Key: []byte("0123456789abcdef0123456789abcdef"), CacheSizes: []int{-1, -1, -1, -1, -1}, NoTwin: true, Setup: setup, BatchLimit: 2})
 			sim.Spawn("http-client", func() {
 				for _, op := range ops {
 					if e.Violated() {
@@ -213,6 +245,13 @@ func C05(e *simkern.Env) {
 						sim.Probe("http-exception")
 						c05Judge(e, "http:"+op.Sig(), eb, w, debug)
 					}
+				}
+				for _, op := range ops2 {
+					if e.Violated() {
+						return
+					}
+					t := httpw.Decode(httpw.Post(cl.Inst[4], "/"+op.Method, pipew.RequestBytes(op), httpw.Ident{}, nil))
+					judgeOther("http", op, t.Err)
 				}
 				if e.Violated() {
 					return
@@ -278,7 +317,7 @@ func init() {
 	Registry["C05"] = &Info{
 		Run:   C05,
 		Level: "exploration",
-		Rule:  "session-oracle check: each run draws debug errors on/off and a history of 3-9 calls in which most fail: handler errors of every shape (RpcError with arbitrary Type/Kind incl. empty, plain errors.New, fmt.Errorf %w chains, custom error types, wrapped RpcError, errors.Join), panics with string/error/struct values, stream init failures, mid-stream error/panic/no-emit/double-emit/finish-on-exchange, malformed requests, unknown methods; the history runs on a simulated pipe and over HTTP (unary, stream init, exchange and producer turns), followed by the framework's own refusals over HTTP (max_response_bytes on unary and exchange, max_externalized_response_bytes, protocol-version gate, session lost); every exception batch is judged; distinct = schedule fingerprint; non-trivial = at least one exception batch judged",
+		Rule:  "session-oracle check: each run draws debug errors on/off and a history of 3-9 calls in which most fail: handler errors of every shape (RpcError with arbitrary Type/Kind incl. empty, plain errors.New, fmt.Errorf %w chains, custom error types, wrapped RpcError, errors.Join), panics with string/error/struct/int/*RpcError/wrapped-RpcError values, stream init failures, mid-stream error/panic/no-emit/double-emit/finish-on-exchange, malformed requests, unknown methods; the history runs on a simulated pipe and over HTTP (unary, stream init, exchange and producer turns), then two failing calls on a second server (pipe) and instance (HTTP) of the same process that runs with the opposite debug setting, followed by the framework's own refusals over HTTP (max_response_bytes on unary and exchange, max_externalized_response_bytes, protocol-version gate, session lost); every exception batch is judged; distinct = schedule fingerprint; non-trivial = at least one exception batch judged",
 		Real:  []string{"vgirpc error envelope (buildErrorExtra, writeErrorBatch) on serveUnary/serveStream/HTTP unary/stream paths, response caps, version gate, sticky token resolution"},
 		Stub:  []string{"transports", "protocol client", "scripted handlers", "object store"},
 		Quick: 600, Thorough: 60000,
